@@ -18,10 +18,16 @@ CLAIMS = {
        "cannot enter, are decided by bounded symbolic execution of their MIR with modelled callees (z3+cvc5): eval_rule, inner `when` "
        "blocks, query blocks (eval_guard_block_clause: empty selection -> SKIP / FAIL for !empty, unresolved = FAIL, all/some fold over "
        "<=2 values), type blocks (eval_type_block_clause), binary_operation (a value is PASS iff its comparison outcome is Success; "
-       "Fail / NotComparable / unresolved operands are FAIL; empty operand set = SKIP) and the operator dispatch of CmpOperator::compare.",
-  note="NOT covered: the parser, query traversal over documents (*, [*], filters, variables), the per-pair comparison strategies of "
-       "EqOperation / InOperation / CommonOperator (list flattening, literal-vs-query cases; operators.rs does not terminate under CBMC "
-       "and its iterator-closure code is beyond the MIR executor's call models), functions inside clauses. The Kani evaluation context "
+       "Fail / NotComparable / unresolved operands are FAIL; empty operand set = SKIP), the operator dispatch of CmpOperator::compare, "
+       "match_value (Ok(true) / Ok(false) / NotComparable classification, operands in order), CommonOperator::compare (every left x right "
+       "pair compared once, in order, with the operator's comparator) and the query traversal step by step: accumulate (`[*]`/`*` over a "
+       "list: empty -> unresolved, else continue at the next position with every element in order), retrieve_index (all i32: element |i| "
+       "iff |i| < len), map_resolved, the filter on a map value, and the dispatcher arm by arm (this, [*], *, [n], .key, [filter] on list) "
+       "- each against an arbitrary result of the continuation.",
+  note="NOT covered: the parser, the traversal arms for a variable head / variable key / map `*` / `keys` filters and the recursion as a "
+       "whole (each step is decided against an arbitrary result of the next), the pairing strategies of EqOperation / InOperation "
+       "(literal-vs-query cases, list flattening; operators.rs does not terminate under CBMC and its iterator-closure code is beyond the "
+       "MIR executor's call models), functions inside clauses. The Kani evaluation context "
        "is a harness stub that returns planted query results; the MIR checks model every callee by a symbolic result and keep loops to "
        "<= 2 iterations (longer selections are cut and counted in the evidence).",
   design="4/C01"),
@@ -126,8 +132,8 @@ CLAIMS = {
   design="0b/C11"),
  "C12": dict(
   text="Bounded symbolic execution (MIR, callees modelled, value identities tracked; z3+cvc5) of the three validate loops that pair "
-       "rules files with documents: CommonStructuredReporter::report (<=2 documents x <=2 rules files), get_test_case (JUnit path) "
-       "and evaluate_against_data_input (plain mode, <=2 documents): every pair is evaluated exactly once, in a scope that root_scope "
+       "rules files with documents - CommonStructuredReporter::report (<=2 documents x <=2 rules files), get_test_case (JUnit path), "
+       "evaluate_against_data_input (plain mode, <=2 documents) - and of `test`'s get_by_result (one scope per test case): every pair is evaluated exactly once, in a scope that root_scope "
        "built from exactly that rules file and that document; the scope handed to eval_rules_file is the one created for the pair and "
        "is never reused; the evaluation is labelled with that document's name; each pair's report is the one combined into the "
        "document's report.",
@@ -143,7 +149,8 @@ CLAIMS = {
        "unordered pairs of kinds, payload symbolic) never satisfy any operator and are reported NotComparable; ordering operators "
        "never hold on bools or on value-vs-range.",
   note="Clause level (MIR, z3+cvc5): NotComparable outcomes are reported FAIL by binary_operation and stay NotComparable under the "
-       "operator-level `not` (flip table); each of < <= > >= is dispatched to its own comparison function. NOT covered: lists and maps "
+       "operator-level `not` (flip table); each of < <= > >= is dispatched to its own comparison function; match_value classifies "
+       "Ok(true)/Ok(false)/NotComparable correctly and CommonOperator compares every left x right pair as (left, right). NOT covered: lists and maps "
        "(heap recursion), regex matching (engine stubbed out), `in` lists.",
   design="4/C13"),
  "C15": dict(
@@ -163,9 +170,12 @@ CLAIMS = {
  "C16": dict(
   text="Bounded model checking of the expectation-matching kernel get_status_result (1..3 definitions x all statuses x all expectations: "
        "met iff some definition has the expected non-SKIP status, or all are SKIP when SKIP is expected; returned status = expected) and "
-       "of the per-file exit fold get_exit_code.",
-  note="NOT covered: that `test` and `validate` compute the same statuses (two loaders + the evaluator), rules without expectations, the "
-       "four renderings.",
+       "of the per-file exit fold get_exit_code. On MIR (z3+cvc5): GenericReporter::report (<=2 test files x <=2 cases: exit 0 iff every "
+       "file was readable and no case has a FAIL group, 7 if only mismatches, 1 if only unreadable files) and get_by_result (one evaluation "
+       "per case in a fresh scope built from the rules file and the case's input; a rule without a stated expectation is counted neither "
+       "as met nor as failed; met -> PASS group, else FAIL group).",
+  note="NOT covered: that `test` and `validate` compute the same statuses (two loaders + the evaluator), get_by_rules' grouping, the "
+       "structured / JUnit test reporter, `--dir` mode, the four renderings.",
   design="4/C16"),
  "C17": dict(
   text="PathAwareValue::merge decided twice: by Kani/CBMC on one-entry maps with symbolic integer values (equal keys: MultipleValues "
